@@ -135,10 +135,10 @@ type need struct{ fn, guard string }
 
 type audit struct {
 	fn, kind, what string // what: substring of the canonical description
-	reason       string
-	needs        []need
-	check        func(c *Check) (bool, string)
-	hits         int
+	reason         string
+	needs          []need
+	check          func(c *Check) (bool, string)
+	hits           int
 }
 
 func hasGuardQuiet(c *Check, fnSpec, want string) bool {
